@@ -149,6 +149,9 @@ func sampleTyped(rng *rand.Rand, pkg CorpusPkg, mode Mode, i int) CScenario {
 					c.Fault = sampleMangle(rng, []string{fmt.Sprintf("query#%d", rng.Intn(120)), fmt.Sprintf("query#%d", rng.Intn(120)), fmt.Sprintf("header#%d", rng.Intn(12)), fmt.Sprintf("cookie#%d", rng.Intn(6)), fmt.Sprintf("path:%d", rng.Intn(6))})
 				case 13:
 					c.Fault = &Fault{Kind: "dup-query", Arg: fmt.Sprintf("#%d", rng.Intn(120))}
+					if rng.Intn(2) == 0 {
+						c.Fault = &Fault{Kind: "mangle", Arg: fmt.Sprintf("path:%d", rng.Intn(6)), Val: rawSegments[rng.Intn(len(rawSegments))]}
+					}
 				case 0, 1:
 					c.Fault = &Fault{Kind: "cut-req", Frac: frac()}
 				case 2:
@@ -660,6 +663,7 @@ func (e *Engine) minimiseTyped(id string, sc CScenario, r *CRecord, key string, 
 				ps = append(ps, typedDeliver(cr, sc.Pkg, deliver[sc.Pkg])...)
 			case "C15":
 				ps = append(ps, typedC15(cr, sc.Pkg)...)
+				ps = append(ps, routingRule(cr, e.matchers(sc.Pkg), sc.Pkg)...)
 			}
 		}
 	}
@@ -754,4 +758,24 @@ func (e *Engine) RunCorpus(race bool, scs []CScenario, perProc, jobs int) ([]CRe
 func FingerprintC(r *CResult) string {
 	b, _ := json.Marshal(r)
 	return string(b)
+}
+
+// matchers returns (and caches) the route matchers of a corpus package.
+func (e *Engine) matchers(pkg string) []routeMatcher {
+	e.mu.Lock()
+	defer e.mu.Unlock()
+	if e.routeMatchers == nil {
+		e.routeMatchers = map[string][]routeMatcher{}
+	}
+	if m, ok := e.routeMatchers[pkg]; ok {
+		return m
+	}
+	var m []routeMatcher
+	for _, p := range e.Corpus {
+		if p.Name == pkg {
+			m = newRouteMatchers(p.Routes)
+		}
+	}
+	e.routeMatchers[pkg] = m
+	return m
 }
